@@ -99,7 +99,7 @@ Proof. exact (fun tbl c t bs OK => reverse_table_spec tbl OK c t bs). Qed.
 Print Assumptions C19_reverse_sbcs.
 
 Theorem C19_sbcs_ok : forallb table_ok gen_sbcs = true.
-Proof. exact (eq_refl true). Qed.
+Proof. exact (eq_refl true <: forallb table_ok gen_sbcs = true). Qed.
 Print Assumptions C19_sbcs_ok.
 
 Example C19_reverse_text_ex :
